@@ -27,6 +27,7 @@ fn run_one<F: Fam>(case: &Case, big: bool, w: &mut impl Write) -> std::io::Resul
     fuse_off();
     let mut ctx: Ctx<F> = Ctx::new(case);
     ctx.big = big;
+    ctx.focus = Some(C17);
     for (i, op) in case.ops.iter().enumerate() {
         match ctx.step(i, op) {
             Ok(()) => {
